@@ -444,3 +444,19 @@ def run_driver(exe, lines, timeout=900):
     if p.returncode != 0:
         raise RuntimeError("driver %s failed: %s" % (exe, p.stderr[-2000:]))
     return p.stdout.split("\n")[:-1]
+
+
+def regen_small(c, which):
+    """Gen/Small_gen.v (behaviour tables of four small text-building methods of SQLGenerator): regenerate and validate the interpreter against CPython.
+    `which` names the table the calling property uses (for the obligation text)."""
+    from translator import gen_small
+    try:
+        write_if_changed(os.path.join(COQ, "Gen", "Small_gen.v"), gen_small.generate(REPO))
+        c.obligation("translator: behaviour table of %s regenerated (Gen/Small_gen.v)" % which, True, "translator")
+        same = gen_small.tables(REPO) == gen_small.tables(REPO, real=True)
+        c.obligation("translator validation: interpreted %s == the real method under CPython on the same scripted inputs" % which, same, "translator")
+    except Exception as e:
+        c.obligation("translator: behaviour table of %s regenerated (Gen/Small_gen.v)" % which, False, "translator", repr(e)[-900:])
+    t = "translator/pyinterp.py + gen_small.py (fail-closed definitional interpreter; sqlglot's parser / identifier quoting and `re` are scripted; validated against CPython each run)"
+    if t not in c.trusted:
+        c.trusted.append(t)
